@@ -1,6 +1,7 @@
 (* C02 — schema-to-model structure fidelity (no silently lost fields).
    Only statements, [exact], and Print Assumptions live here. *)
 From PG Require Import Lib.Strs Model.AllOf Model.Parser Proofs.AllOf Proofs.Parser Gen.T_C02.
+From Coq Require Import Permutation.
 
 (* The allOf merge is exactly the declared semantics over flat parents, for ALL member lists and ALL property lists:
    the value of a key is the one of the first member that defines it, every key appears once and in order of first
@@ -21,7 +22,7 @@ Print Assumptions declared_functional.
 
 (* PARTIAL (the fragment is restricted, the quantifier is not).  For EVERY document of the core fragment
    ([core_spec]: properties are $refs / primitives / arrays of ($ref | primitive | enum); schemas are such objects,
-   allOf over ($ref | such object), primitives, enums, arrays; names unique, fixed by the sanitiser, no property key
+   allOf over ($ref | such object | primitive | enum), primitives, enums, arrays, maps and oneOf/anyOf of ($ref | primitive | enum); names unique, fixed by the sanitiser, no property key
    equal to a schema name) whose references are acyclic ([ranked_b] with a rank witness rk) and whose deepest $ref
    chain fits the depth limit ([depth_ok]) - any number of schemas, any declaration order, any depth of $ref / allOf
    chains - every declared schema has exactly one model, the model is not a placeholder, and its fields are exactly the
@@ -34,6 +35,15 @@ Theorem C02_partial : forall md S rk,
 Proof. exact C02_acyclic. Qed.
 Print Assumptions C02_partial.
 
+(* ... and the schema's own model has the structural kind the document gives it: object for objects and allOf,
+   list of the item type for arrays, map of the value type, the primitive, enum (same guards as C02_partial). *)
+Theorem C02_partial_kind : forall md S rk,
+  core_spec S = true -> ranked_b rk S = true -> depth_ok rk S md = true ->
+  forall n nd, alookup n S = Some nd ->
+  exists e, alookup n (parsed (parse_doc md S)) = Some e /\ kind_ok nd e.
+Proof. exact C02_acyclic_kind. Qed.
+Print Assumptions C02_partial_kind.
+
 (* On such documents the run takes none of the loss-relevant branches, does not run out of fuel and registers
    every declared schema (so the dynamic guards of the correspondence driver are all true). *)
 Theorem C02_acyclic_runs_clean : forall md S rk,
@@ -42,10 +52,15 @@ Theorem C02_acyclic_runs_clean : forall md S rk,
 Proof. exact acyclic_clean. Qed.
 Print Assumptions C02_acyclic_runs_clean.
 
-(* Dynamic form (no acyclicity witness needed): whenever the run of the model on a core document fires no
-   loss-relevant branch, fidelity holds. *)
+(* Dynamic form (no acyclicity witness needed), on the WIDER fragment [inl_spec]: the properties of a top-level object
+   schema may also be inline objects (of core properties), which the parser promotes to the schema <Parent><Prop>;
+   the guard contains the executable negation of name capture (all names of the name table [nt] - declared schemas and
+   promoted inline objects - are distinct and no property key is one of them) and "every $ref is declared".  Whenever
+   the run of the model fires no loss-relevant branch, every declared schema has exactly its declared fields, where an
+   inline object property denotes the reference to its promoted schema (ty_of_prop).
+   NOT proved for this wider fragment: the static part (acyclic => the run is clean), see the manifest. *)
 Theorem C02_partial_clean_runs : forall md S,
-  core_spec S = true ->
+  inl_spec S = true ->
   let s := parse_doc md S in
   events s = [] -> oof s = false -> all_present S s = true ->
   forall n, In n (map fst S) -> faithful S s n.
@@ -55,7 +70,7 @@ Print Assumptions C02_partial_clean_runs.
 (* The only ways a schema of the core fragment loses fidelity are the logged branches (cycle placeholder stored /
    returned, depth placeholder, early return of an existing or placeholder schema, overwrite, dangling $ref). *)
 Theorem C02_loss_only_by_events : forall md S,
-  core_spec S = true ->
+  inl_spec S = true ->
   let s := parse_doc md S in
   oof s = false -> all_present S s = true ->
   forall n, In n (map fst S) -> ~ faithful S s n -> events s <> [].
@@ -70,6 +85,35 @@ Theorem C02_guard_nonvacuous :
      = Some [(sident, true, TPrim PInteger); (skind, false, TRef sKind); (stag, true, TRef sTag); (snames, false, TList (TPrim PString))].
 Proof. exact (conj static_guard_nonvacuous guard_nonvacuous). Qed.
 Print Assumptions C02_guard_nonvacuous.
+
+(* Non-vacuity of the wider guard: a document with an inline object property meets inl_spec (not core_spec), its run
+   is clean, and the property denotes the promoted schema UserGroup, which carries the inline object's fields. *)
+Theorem C02_inl_guard_nonvacuous :
+  inl_spec spec_inl = true /\ core_spec spec_inl = false
+  /\ events (parse_doc default_max_depth spec_inl) = [] /\ oof (parse_doc default_max_depth spec_inl) = false
+  /\ all_present spec_inl (parse_doc default_max_depth spec_inl) = true
+  /\ faithful_b spec_inl (parse_doc default_max_depth spec_inl) sUser = true
+  /\ model_fields (parse_doc default_max_depth spec_inl) sUser
+     = Some [(sgroup, true, TRef sUserGroup); (sname, false, TPrim PString)]
+  /\ model_fields (parse_doc default_max_depth spec_inl) sUserGroup
+     = Some [(sxx, true, TPrim PString); (sowner, false, TRef sAccount)].
+Proof. exact inl_guard_nonvacuous. Qed.
+Print Assumptions C02_inl_guard_nonvacuous.
+
+(* core_spec with declared references is an instance of inl_spec *)
+Theorem C02_core_is_inl : forall S,
+  core_spec S = true -> (forall n nd, In (n, nd) S -> forall m, In m (refs nd) -> In m (map fst S)) -> inl_spec S = true.
+Proof. exact core_inl. Qed.
+Print Assumptions C02_core_is_inl.
+
+(* Non-vacuity of the widened fragment (top-level map, top-level oneOf/anyOf, allOf with a primitive member). *)
+Theorem C02_wide_guard_nonvacuous :
+  (core_spec spec_wide = true /\ ranked_b rk_wide spec_wide = true /\ depth_ok rk_wide spec_wide default_max_depth = true)
+  /\ model_fields (parse_doc default_max_depth spec_wide) sMixed
+     = Some [(sident, true, TPrim PInteger); (slabel, true, TPrim PString); (snote, true, TList TEnum)]
+  /\ model_fields (parse_doc default_max_depth spec_wide) sIndex = Some [].
+Proof. exact wide_guard_nonvacuous. Qed.
+Print Assumptions C02_wide_guard_nonvacuous.
 
 (* Non-vacuity for allOf branches WITHOUT properties (allOf:[{$ref: Base}, {required:[label, owner]}]): the document
    meets the guard of C02_partial, and the inherited properties come out required through two allOf levels. *)
@@ -134,3 +178,15 @@ Theorem C02_regression_F02f :
   /\ has_ev EvMarked (parse_doc default_max_depth spec_F02f) = false.
 Proof. exact regression_F02f. Qed.
 Print Assumptions C02_regression_F02f.
+
+(* Order independence (needed by C19): for documents of the fragment of C02_partial, permuting the declarations does not
+   change any schema's model fields - for EVERY name n (declared names: both sides equal `declared`; other names: no
+   entry on either side).  The guards are required of both orders, as a permutation changes neither of them in
+   substance (core_spec, acyclicity and the depth bound do not depend on the order; the rank witness may be reused). *)
+Theorem C02_order_independent : forall md S S' rk rk',
+  core_spec S = true -> ranked_b rk S = true -> depth_ok rk S md = true ->
+  core_spec S' = true -> ranked_b rk' S' = true -> depth_ok rk' S' md = true ->
+  Permutation S S' ->
+  forall n, model_fields (parse_doc md S) n = model_fields (parse_doc md S') n.
+Proof. exact order_independent. Qed.
+Print Assumptions C02_order_independent.
